@@ -433,6 +433,26 @@ def r5_no_shared_extension(cx):
     cx.extra["combinator_expressions_checked"] = n
 
 
+def r6_fresh_results(cx):
+    """A failed alternative / an empty match must leave no trace on later parses: a combinator that hands out one shared mutable object as its
+    result (Opt(..., default=[]) returns the *same* list every time it takes the default) lets a caller's mutation show up in every later parse."""
+    cx.rule("C19.R6", "core combinators never hand out a shared mutable default as a parse result", floor=1)
+    mods = [cx.repo.module(PS), cx.repo.module("insights.parsr.examples.json_parser"), cx.repo.module("insights.core.taglang")]
+    n = 0
+    for m in mods:
+        for c in [x for x in ast.walk(m.tree) if isinstance(x, ast.Call) and call_name(x) in ("Opt", "Literal", "Wrapper") or (isinstance(x, ast.Call) and call_attr(x) in ("Opt",))]:
+            for k in c.keywords:
+                if k.arg in ("default", "value"):
+                    n += 1
+                    mutable = isinstance(k.value, (ast.List, ast.Dict, ast.Set, ast.ListComp, ast.DictComp, ast.SetComp)) or \
+                        (isinstance(k.value, ast.Call) and call_name(k.value) in ("list", "dict", "set", "OrderedDict", "deque"))
+                    cx.require(not mutable, c, "%s(...%s=...) does not use a mutable object as the value it returns on every empty match" % (call_name(c) or call_attr(c), k.arg),
+                               construct=short(c, 110))
+    opt = cx.repo.module(PS).func("Opt.process", "C19.R6")
+    rets = [r for r in walk_body(opt.body) if isinstance(r, ast.Return)]
+    cx.require(any("self.default" in U(r.value) for r in rets), opt, "Opt returns its default object itself on failure (hence the default must be immutable)", construct=" | ".join(short(r) for r in rets))
+
+
 def run(cx):
     cx.extra["explanation"] = ("C19: def-use facts on the position variable of every core combinator's process() (origin of the position handed to each child call, whether a child's result "
                                "reaches the function result, what each handler does) compared with the PEG protocol table; effect rule (no writes to the input, context only through error "
@@ -444,3 +464,4 @@ def run(cx):
     cx.guard(r3_taglang)
     cx.guard(r4_json)
     cx.guard(r5_no_shared_extension)
+    cx.guard(r6_fresh_results)
